@@ -15,6 +15,7 @@ fn any_tri(max: usize) -> Tri<usize> {
 // @bound at most 2 faces and at most 3 vertices, indices up to 4
 // @allow_panic Mesh::<.*>::new
 // @clause a mesh can only be built from faces whose indices all refer to existing vertices: whenever Mesh::new / Builder::build return, every face index is < the vertex count, and faces and vertices are stored in the given order
+#[cfg(not(verif_skip_mesh_new_rejects_dangling_indices))]
 #[kani::proof]
 #[kani::unwind(6)]
 fn mesh_new_rejects_dangling_indices() {
@@ -52,6 +53,7 @@ fn mesh_new_rejects_dangling_indices() {
 // @fn Mesh::new ; Builder::build
 // @bound at most 2 faces and at most 3 vertices
 // @clause Mesh::new accepts every face list whose indices are all < the vertex count (it never rejects a valid mesh)
+#[cfg(not(verif_skip_mesh_new_accepts_valid))]
 #[kani::proof]
 #[kani::unwind(6)]
 fn mesh_new_accepts_valid() {
